@@ -106,7 +106,7 @@ theorem vm_query {fl : Bool} (prog : List Term) (query : Term) (max : Nat) (hfra
       ({ id := 1, delayed := [Thunk.clause (clauseOf (qClause query')) (argList (qHead query'))
           (.collect query' max) [] 1] } : Pr)
       { startM prog with user := { (startM prog).user with nextId := 2 } } [] r1 := by
-    refine .alts (its := [(qClause query', some (.frames (SLD.bodyFrames false query 0)))])
+    refine .alts (its := [(clauseOf (qClause query'), qClause query', some (.frames (SLD.bodyFrames false query 0)))])
       (g := qHead query') (K := .collect query' max) (env := []) (R := []) (q := query) (nv := B) (n := n)
       hans0 (by decide) (qHead_shape query') ?_ (by simpa using hs)
     refine ⟨1000000, fun v => .var v, (· - 10), _, [], Nat.le_of_eq hnv0.symm,
